@@ -39,8 +39,8 @@ ASSUMPTIONS = [
     'opacity data are installed before the chemistry object is built (availability is read at construction)',
     'trace totals within 4 eps*k of one (but not exactly one) are counted, not judged',
 ]
-_Q = {'mixture': 180, 'gas': 500, 'model': 20, 'routes': 120}
-_T = {'mixture': 2600, 'gas': 7000, 'model': 250, 'routes': 1500}
+_Q = {'mixture': 180, 'gas': 500, 'model': 20, 'routes': 120, 'long': 2}
+_T = {'mixture': 2600, 'gas': 7000, 'model': 250, 'routes': 1500, 'long': 8}
 BUDGET = {
     'quick': [dict(name='main', env={}, shards=8, cases=_Q)],
     'thorough': [dict(name='main', env={}, shards=16, cases=_T),
@@ -55,7 +55,7 @@ REQUIRED = dict(
               'rejects-above-one', 'accepts-valid', 'contract-fired', 'earlier-result-stays-as-returned', 'routes:split-by-availability',
               'routes:one-row-per-gas-one-value-per-layer', 'routes:nonnegative-finite', 'routes:sums-to-one',
               'routes:profile-as-declared', 'routes:get_gas_mix_profile-is-the-row', 'routes:mu-weighted-sum'],
-    classes=['gas-added-after-initialisation', 'grid:integer-decades', 'after-rejection:abundances-written-down', 'after-rejection:valid-sample-accepted', 'gas:ConstantGas', 'gas:TwoLayerGas', 'gas:TwoPointGas', 'gas:ArrayGas', 'gas:PowerGas',
+    classes=['history:one-chemistry-object-over-a-hundred-updates', 'history:dozens-of-rejections-on-one-object', 'gas-added-after-initialisation', 'grid:integer-decades', 'after-rejection:abundances-written-down', 'after-rejection:valid-sample-accepted', 'gas:ConstantGas', 'gas:TwoLayerGas', 'gas:TwoPointGas', 'gas:ArrayGas', 'gas:PowerGas',
              'fill:1', 'fill:2', 'fill:3', 'fill:4', 'ratio:float', 'ratio:list', 'mixture:dilute', 'mixture:heavy',
              'mixture:unity', 'mixture:exceed', 'avail:memory', 'avail:file', 'avail:none', 'fill-gas-active',
              'trace-inactive', 'nlayers:2', 'nlayers:100', 'via-forward-model', 'via-setter', 'twolayer:smoothed',
@@ -589,6 +589,41 @@ def wl_routes(ctx, rng):
 
 
 
+def wl_long(ctx, rng):
+    """A long history on ONE chemistry object, as in a retrieval with abundance priors that reach up to one: a few
+    hundred abundance updates through the fitting parameters, valid mixtures and mixtures whose traces exceed one
+    interleaved; every initialisation is judged like the first."""
+    from taurex.data.profiles.chemistry import TaurexChemistry, ConstantGas
+    n = int(rng.integers(2, 12))
+    P, T, gk = gen_grid(rng, n)
+    fills = ['H2', 'He']
+    mols = [str(m) for m in rng.choice(TRACE_POOL, 2, replace=False)]
+    avail, d = make_availability(ctx, rng, fills + mols)
+    gases = [ConstantGas(m, mix_ratio=1e-4) for m in mols]
+    chem = TaurexChemistry(fill_gases=list(fills), ratio=0.17)
+    for g in gases:
+        chem.addGas(g)
+    _own['led'] = None
+    fp = chem.fitting_parameters()
+    steps = int(rng.integers(130, 220)) if ctx.tier == 'quick' else int(rng.integers(400, 1500))
+    rejected = 0
+    for i in range(steps):
+        g = gases[int(rng.integers(0, 2))]
+        v = float(rng.uniform(0.6, 1.5)) if rng.random() < 0.45 else float(10 ** rng.uniform(-8, -0.5))
+        fp[g.molecule][3](v)
+        L.redeclare(g, mix_ratio=v)
+        o = init_chem(ctx, chem, n, T, P)
+        verdict = judge(ctx, o, gases, n, step=i, rejected_before=rejected, history='long')
+        if verdict == 'exceed':
+            rejected += 1
+    ctx.observe('history:one-chemistry-object-over-a-hundred-updates')
+    if rejected > 50:
+        ctx.observe('history:dozens-of-rejections-on-one-object')
+    if d is not None:
+        shutil.rmtree(d, ignore_errors=True)
+    ctx.sig('long', n, tuple(mols), steps, rejected)
+
+
 def wl_repo_tests(ctx, rng):
     """The repository's own chemistry tests, run in this process with the contracts on (DESIGN 3.4).  Their opacity
     mocks are not the world's: availability is not recorded, so the active/inactive contract only counts them."""
@@ -618,7 +653,7 @@ def wl_repo_tests(ctx, rng):
     ctx.sig('repo-tests', 2)
 
 
-WORKLOADS = {'repo_tests': wl_repo_tests, 'mixture': wl_mixture, 'gas': wl_gas, 'model': wl_model, 'routes': wl_routes}
+WORKLOADS = {'long': wl_long, 'repo_tests': wl_repo_tests, 'mixture': wl_mixture, 'gas': wl_gas, 'model': wl_model, 'routes': wl_routes}
 
 LEVEL_TEXT = ('Exploration by runtime monitoring: icontract postconditions attached from the harness to TaurexChemistry.initialize_chemistry '
               'and to initialize_profile of every built-in gas profile judge each initialisation the workloads (and forward models they '
